@@ -50,7 +50,29 @@ def cases(tier, seed):
                 "chunk": rng.choice([1, 2, 5, 10 ** 6]), "nproc": 2 if h % 23 == 9 else 1}
         if h % 9 == 6:
             case["via"] = "cli"
+        if h % 5 == 3:
+            # the output path was used before, for other data and another ladder
+            case["prior"] = {"px": gen.random_store(rng, len(table), mode, maxval=4),
+                             "resolutions": [m * b0 for m in rng.choice([[2, 4, 8, 16], [3, 6], [2, 5, 10], [1, 7]])]}
         yield "zm.zoomify", case
+    # (2b) bases that are not coarsenings of one another, with their own data and value dtype
+    for h in range(24 if tier == "quick" else 300):
+        lens = [[24, 12], [36], [18, 12, 6]][h % 3]
+        mode = "symm" if h % 3 else "square"
+        ra, rb = rng.choice([(2, 3), (3, 2), (2, 5), (3, 4), (4, 3)])
+        dts = rng.choice([("int32", "float64"), ("float64", "int32"), ("int32", "float32"), ("int64", "float64"), ("float64", "float64")])
+        bases = []
+        for res, dt in ((ra, dts[0]), (rb, dts[1])):
+            tb = gen.binnify(lens, res)
+            px = gen.random_store(rng, len(tb), mode, maxval=9)
+            if dt.startswith("int"):
+                px = [[i, j, 4 * v] for i, j, v in px]            # quarters: whole numbers only
+            bases.append({"res": res, "table": tb, "px": px, "dtype": dt})
+        mult = rng.choice([[2], [2, 4], [3], [2, 6]])
+        res = sorted({ra * m for m in mult} | {rb * m for m in mult})
+        res = [r for r in res if (r % ra == 0) != (r % rb == 0)]     # exactly one possible base
+        rng.shuffle(res)
+        yield "zm.multibase", {"mode": mode, "bases": bases, "resolutions": res, "chunk": rng.choice([3, 10 ** 6])}
     # (3) resolution-spec spellings of `cooler zoomify -r`
     specs = [("N", [{"kind": "n", "start": 1000}]), ("n", [{"kind": "n", "start": 1000}]), ("B", [{"kind": "b", "start": 1000}]),
              ("b", [{"kind": "b", "start": 1000}]), ("4DN", [{"kind": "4dn", "start": 0}]), ("4dn", [{"kind": "4dn", "start": 0}]),
@@ -70,6 +92,8 @@ def cases(tier, seed):
 
 
 def nontrivial(drv, case, obs):
+    if drv == "zm.multibase":
+        return any(b["px"] for b in case["bases"])
     if drv == "zm.zoomify":
         return len(case["px"]) > 0
     if drv == "zm.multiplier":
@@ -83,7 +107,9 @@ def run(tier, seed, only_case=None):
               "zm.zoomify: four fixed-width bases (bin sizes 1,2,3; 1-3 chromosomes) with random stores x ladders in any order "
               "(2-4-8, 8-4-2, 2-3-6-12 mixed predecessors, with/without the base, with a non-derivable member) x one or two base "
               "coolers x chunk size x 1-2 workers x API/CLI: every level is read back and compared with DIRECT coarsening of the "
-              "base; zm.resspec: 13 spellings of the CLI resolution spec (N, B, 4DN, <k>N, <k>B, lists). non-trivial = store not "
+              "base; with / without an earlier multires file at the output path; zm.multibase: two bases that are not coarsenings of one "
+              "another (bin sizes 2/3, 2/5, 3/4; own data; int32/int64/float32/float64 value columns, quarter-valued floats), each "
+              "level derivable from exactly one of them; zm.resspec: 13 spellings of the CLI resolution spec (N, B, 4DN, <k>N, <k>B, lists). non-trivial = store not "
               "empty / more than one resolution.")
     r.assumptions = ["bases are fixed-width coolers whose bin sizes divide the targets as stated by the case"]
     if only_case is None:
